@@ -90,11 +90,13 @@ def mk_node(spec):
     raise HarnessBug("node type " + str(t))
 
 
-def mk_caption(spec, shared):
+def mk_caption(spec, shared, explicit_style=False):
     from pycaption import Caption
     nodes = [mk_node(n) for n in spec["nodes"]]
     kw = {}
     st = spec.get("style", "default")
+    if explicit_style and not isinstance(st, dict):
+        st = {}   # edits of read-derived sets never rely on the library's default arguments
     if isinstance(st, dict):
         kw["style"] = dict(st)
     elif isinstance(st, str) and st.startswith("shared:"):
@@ -104,9 +106,9 @@ def mk_caption(spec, shared):
     return Caption(spec["start"], spec["end"], nodes, **kw)
 
 
-def mk_caplist(spec, shared):
+def mk_caplist(spec, shared, explicit_style=False):
     from pycaption import CaptionList
-    caps = [mk_caption(c, shared) for c in spec["captions"]]
+    caps = [mk_caption(c, shared, explicit_style) for c in spec["captions"]]
     return CaptionList(caps, layout_info=mk_layout(spec.get("layout")))
 
 
@@ -200,14 +202,14 @@ def apply_edit(cs, name, a):
         cl = cap_list()
         if cl is None:
             return "noop"
-        cl.append(mk_caption(a["caption"], {}))
+        cl.append(mk_caption(a["caption"], {}, explicit_style=True))
     elif name == "caps_pop":
         cl = cap_list()
         if cl is None or len(cl) < 2:
             return "noop"
         cl.pop(a.get("cap", 0) % len(cl))
     elif name == "set_captions":
-        cs.set_captions(a["new_lang"], mk_caplist(a["list"], {}))
+        cs.set_captions(a["new_lang"], mk_caplist(a["list"], {}, explicit_style=True))
     elif name == "set_layout":
         lay = mk_layout(a["layout"])
         lvl = a["level"]
@@ -475,6 +477,9 @@ def run_job(job):
         return run_detect_batch(job)
     if k == "pipeline_batch":
         return run_pipeline_batch(job)
+    if k == "detect_faults":
+        from . import c20
+        return c20.child_detect_faults(job)
     if k == "ping":
         import pycaption
         return {"pycaption": os.path.abspath(pycaption.__file__), "hashseed": os.environ.get("PYTHONHASHSEED"),
